@@ -36,7 +36,8 @@ export async function report(ctx, item, parserName, core, v, impl, ref, origin, 
       hit = { signature: loc.signature, text: coreProgramText(env, loc.core), value: loc.value, detail: `localised to ${coreProgramText(env, loc.core).trim().split("\n").pop()} on ${show(loc.value)}` };
     } else {
       const loc = await localiseSource(ctx, item, srcT, v, { impl, ref }, options);
-      hit = { signature: loc.signature, text: loc.text ?? item.text, value: loc.value, parser: loc.text ? "X" : parserName, detail: `operator ${loc.op}: ${(loc.text ?? item.text).trim().split("\n").slice(-3).join(" ")} on ${show(loc.value)} (impl ${loc.impl}, reference ${loc.ref})`, expect: loc.ref, observed: loc.impl };
+      if (loc.skip) hit = { skip: true };
+      else hit = { signature: loc.signature, text: loc.text ?? item.text, value: loc.value, parser: loc.text ? "X" : parserName, detail: `operator ${loc.op}: ${(loc.text ?? item.text).trim().split("\n").slice(-3).join(" ")} on ${show(loc.value)} (impl ${loc.impl}, reference ${loc.ref})`, expect: loc.ref, observed: loc.impl };
     }
     locCache.set(ck, hit);
   }
